@@ -163,7 +163,17 @@ def is_zero_store(st, root, mname, elem=None):
     return any(_index_uses(l, mname) for l in levels)
 
 
-def zero_store_nodes(g, fn, root, mname, elem=None):
+def _loop_zeroes(st, seq_has_root, mname):
+    """`for a in <sequence containing root>: a[m] = 0` (every body statement a zero store of the target)"""
+    return isinstance(st, ast.For) and isinstance(st.target, ast.Name) and st.body and seq_has_root(st.iter) \
+        and all(is_zero_store(s, st.target.id, mname, None) for s in st.body)
+
+
+def zero_store_nodes(g, fn, root, mname, elem=None, resolve=None):
+    """CFG nodes of fn after which `root` (element `elem`) is zero under the mask `mname`:
+    direct stores, a loop over the spin index whose body is such a store, a loop over a literal
+    tuple/list of arrays zeroing each, and (one level) a call of a helper doing one of these to the
+    parameters bound to root and mask."""
     ids = set()
     for n in g.nodes:
         st = n.ast
@@ -172,6 +182,31 @@ def zero_store_nodes(g, fn, root, mname, elem=None):
         elif n.kind == "iter" and isinstance(st, ast.For) and st.body \
                 and all(is_zero_store(s, root, mname, elem) for s in st.body):
             ids.add(n.id)
+        elif n.kind == "iter" and elem is None and _loop_zeroes(
+                st, lambda it: isinstance(it, (ast.Tuple, ast.List)) and any(
+                    isinstance(e, ast.Name) and e.id == root for e in it.elts), mname):
+            ids.add(n.id)
+        elif n.kind == "stmt" and elem is None and resolve is not None and isinstance(st, ast.Expr) \
+                and isinstance(st.value, ast.Call):
+            r = resolve(st.value)
+            if r is None:
+                continue
+            callee, skip = r
+            bound = er._bind_call(callee, st.value, skip)
+            pm = [p for p, a in bound.items() if isinstance(a, ast.Name) and a.id == mname]
+            if not pm:
+                continue
+            gc = cfgm.CFG(callee)
+            for p, a in bound.items():
+                if isinstance(a, ast.Name) and a.id == root:
+                    zc = zero_store_nodes(gc, callee, p, pm[0])
+                elif isinstance(a, (ast.Tuple, ast.List)) and any(isinstance(e, ast.Name) and e.id == root for e in a.elts):
+                    zc = {m.id for m in gc.nodes if m.kind == "iter" and _loop_zeroes(
+                        m.ast, lambda it, p=p: isinstance(it, ast.Name) and it.id == p, pm[0])}
+                else:
+                    continue
+                if zc and gc.must_pass(lambda node: node.id in zc)[0]:
+                    ids.add(n.id)
     return ids
 
 
@@ -220,8 +255,7 @@ def dirty_nodes(g, fn, root, mname, elem=None):
 
 def rule_clamp_zero(chk, prog):
     for rel, qual, vidx, didx in CLAMP_FUNCS:
-        mod = prog.module(rel)
-        fn = mod.func(qual)
+        mod, fn = er.anchor(prog, rel, qual)
         g = cfgm.CFG(fn)
         masks = find_mask(fn)
         if len(masks) != 1:
@@ -258,8 +292,21 @@ def rule_clamp_zero(chk, prog):
         if len(elems) < need:
             raise core.AnalysisError("%s returns %d element(s), the rule table expects %d" % (qual, len(elems), need))
 
+        cls_ = pf.enclosing_class(fn)
+
+        def resolve(call, mod=mod, fn=fn, cls_=cls_):
+            f = call.func
+            if isinstance(f, ast.Name) and f.id in mod.functions and mod.functions[f.id] is not fn:
+                return mod.functions[f.id], False
+            if isinstance(f, ast.Attribute) and isinstance(f.value, ast.Name) and f.value.id in ("self", "cls") \
+                    and cls_ is not None:
+                r = prog.find_method(mod, cls_, f.attr)
+                if r is not None and r[2] is not fn:
+                    return r[2], True
+            return None
+
         def zeroed(root, elem):
-            zs = zero_store_nodes(g, fn, root, mname, elem)
+            zs = zero_store_nodes(g, fn, root, mname, elem, resolve)
             if not zs:
                 for c in pf.walk_no_nested(fn):
                     if isinstance(c, ast.Call):
@@ -497,7 +544,7 @@ def den_entries(prog):
     fn = prog.module(FN)
     for nm in ("get_normalized_feature_vector", "get_derivative_of_normed_features",
                "get_derivative_wrt_unnormed_features"):
-        out.append((FN, "FeatNormalizerList." + nm, fn.func("FeatNormalizerList." + nm)))
+        out.append((FN, "FeatNormalizerList." + nm, er.anchor(prog, FN, "FeatNormalizerList." + nm)[1]))
     td = prog.module(TD)
     nsl = 0
     for cname, cls in td.classes.items():
@@ -665,9 +712,10 @@ def analyse(chk):
     chk.rule("index-clip", "cider_ind_clip stores an index within [0, size) on every path (clang AST)")
     chk.guard(rule_index_clip, tree)
     chk.floor("index-clip", 1, "one index array element per iteration")
-    chk.floor("clamp-zero", 20, "7 routines: 7 masks + 13 derivative arrays + 4 values (22)")
-    chk.floor("cutoff-pair", 6, "2 classes x 3 modes")
-    chk.floor("guarded-den", 60, "density-dependent division / negative-power sites in the frozen routine list")
+    chk.floor("singular-override", 20, "returns and output-parameter stores of the frozen routines and baselines")
+    chk.floor("clamp-zero", 10, "7 routines: masks + derivative arrays + values")
+    chk.floor("cutoff-pair", 4, "2 classes x 3 modes + ordering")
+    chk.floor("guarded-den", 40, "density-dependent division / negative-power sites in the frozen routine list")
     chk.assumptions += [
         "physically admissible inputs: rho, sigma, tau, |grad rho| >= 0 (parameters named rho/sigma/tau/mag_grad, and "
         "the raw semilocal features read by the SL*Map classes)",
